@@ -177,3 +177,47 @@ Proof.
     inversion A2 as [X]. inversion A as [Y]. rewrite X, Y. split; [apply stamped_fragid|apply stamped_mapping].
   - intros a b Ha Hb. destruct (disconnected_keeps fd Hd _ _ _ _ _ H (cf a) (Hin _ Ha)) as (_ & _ & E2). rewrite E2. now apply He.
 Qed.
+
+(** ---------------------------------------------------------------- the bonding stage only touches the bonded pairs *)
+Lemma edge_attrs_snoc_empty g k x y : edge_attrs (g ++ [{| nk := k; na := []; nadj := [] |}]) x y = edge_attrs g x y.
+Proof.
+  unfold edge_attrs. rewrite gfind_app_fresh. destruct (gfind x g); [reflexivity|]. cbn [nk]. destruct (Z.eqb k x); reflexivity.
+Qed.
+Lemma edge_attrs_add_edge_other g u v d x y : upair x y u v = false -> edge_attrs (add_edge g u v d) x y = edge_attrs g x y.
+Proof.
+  intros U. unfold add_edge.
+  set (g1 := if has_node g u then g else g ++ [{| nk := u; na := []; nadj := [] |}]).
+  set (g2 := if has_node g1 v then g1 else g1 ++ [{| nk := v; na := []; nadj := [] |}]).
+  assert (edge_attrs g2 x y = edge_attrs g x y) as <-.
+  { unfold g2, g1. destruct (has_node g u); destruct (has_node _ v); rewrite ?edge_attrs_snoc_empty; reflexivity. }
+  generalize (match edge_attrs g2 u v with Ok d0 => d0 | Err _ => [] end). intros old. generalize g2. clear g1 g2. intros g2.
+  unfold edge_attrs. rewrite !gfind_gupdate by reflexivity.
+  assert (~ (x = u /\ y = v)) as N1 by (intros C; assert (upair x y u v = true) as T by (apply upair_true; tauto); congruence).
+  assert (~ (x = v /\ y = u)) as N2 by (intros C; assert (upair x y u v = true) as T by (apply upair_true; tauto); congruence).
+  destruct (Z.eqb_spec x v) as [Exv|Nxv]; destruct (Z.eqb_spec x u) as [Exu|Nxu]; destruct (gfind x g2) as [n|]; cbn [option_map nadj]; try reflexivity;
+    rewrite ?adj_get_adj_set; repeat match goal with |- context [Z.eqb y ?w] => destruct (Z.eqb_spec y w); [exfalso; tauto|] end; reflexivity.
+Qed.
+Lemma apply_bond_other aa mol b mol' x y : apply_bond aa mol b = Ok mol' -> upair x y (b_u b) (b_v b) = false ->
+  edge_attrs mol' x y = edge_attrs mol x y.
+Proof.
+  unfold apply_bond. intros H U. rewrite <- (edge_attrs_add_edge_other mol (b_u b) (b_v b) (bond_attrs b) x y U).
+  destruct aa; [|inversion H; reflexivity]. revert H. generalize (add_edge mol (b_u b) (b_v b) (bond_attrs b)). generalize [b_u b; b_v b].
+  induction l as [|n r IH]; intros g H; cbn [GraphOps.fold_res] in H; [inversion H; reflexivity|].
+  match type of H with bind ?s _ = _ => destruct s as [g1|] eqn:E; cbn [bind] in H; [|discriminate H] end.
+  rewrite (IH _ H). clear -E.
+  destruct (node_get g n (S "element")) as [el|]; cbn [of_option bind] in E; [|discriminate E].
+  destruct (pyval_eqb el (VStr (S "H"))); [inversion E; reflexivity|].
+  destruct (node_get g n (S "hcount")) as [hc|]; cbn [of_option bind] in E; [|discriminate E].
+  destruct (dec_hcount _ hc); cbn [bind] in E; [|discriminate E]. inversion E. apply edge_attrs_set_node_attr.
+Qed.
+(** every edge other than the ones between bonded atom pairs comes out of edges_from_bonding_descrpt as it went in *)
+Theorem bonding_keeps_edges legacy aa meta mol fgs mol' fgs' : bonding_step legacy aa meta mol fgs = Ok (mol', fgs') ->
+  exists s1 bonds, bonds_of legacy meta mol fgs = Ok (s1, bonds) /\
+    forall x y, (forall b, In b bonds -> upair x y (b_u b) (b_v b) = false) -> edge_attrs mol' x y = edge_attrs mol x y.
+Proof.
+  unfold bonding_step. destruct (bonds_of legacy meta mol fgs) as [[s1 bonds]|]; cbn [bind]; [|discriminate].
+  destruct (GraphOps.fold_res (apply_bond aa) bonds mol) as [m2|] eqn:E; cbn [bind]; [|discriminate]. intros H. inversion H; subst. clear H.
+  exists s1, bonds. split; [reflexivity|]. revert mol E. induction bonds as [|b r IH]; intros mol E x y Hb; cbn [GraphOps.fold_res] in E; [inversion E; reflexivity|].
+  destruct (apply_bond aa mol b) as [m1|] eqn:Eb; cbn [bind] in E; [|discriminate E].
+  rewrite (IH _ E x y) by (intros b' Hb'; apply Hb; now right). apply (apply_bond_other _ _ _ _ _ _ Eb). apply Hb. now left.
+Qed.
